@@ -167,7 +167,10 @@ def _op(gen):
 
 
 class Sched:
-    def __init__(self, choices, max_preempt=None):
+    def __init__(self, choices, max_preempt=None, delays=None):
+        self.delays = delays        # delay-bounded mode (Emmi/Qadeer/Rakamaric): deterministic non-preemptive round-robin
+        self.delay_used = 0         # scheduler; each solver-chosen 'delay' skips the thread whose turn it is; <= delays skips
+        self.rr = 0
         self.choices = list(choices)
         self.i = 0
         self.threads = []
@@ -175,7 +178,11 @@ class Sched:
         self.preempts = 0
         self.last = None
         self.trace = []
+        self.stepped_aside = None
         self.max_steps = 4000
+        self.settle = 6
+        self.lazy = set()           # threads that only run once the rest of the system has settled (see run)
+        self.finished = set()
         self.eager = set()          # threads that run as soon as they can (no scheduling choice): a stated reduction
         del _PENDING[:]
 
@@ -199,6 +206,32 @@ class Sched:
                     return v
         return n - 1
         raise Prune()
+
+    def pick_delay_bounded(self, runnable):
+        """the running thread goes on while it can; otherwise the next runnable thread in spawn order (cyclic) gets its turn;
+        while the delay budget lasts, a boolean solver variable per step may skip the thread whose turn it is"""
+        n = len(self.threads)
+        pos = {id(t): k for k, t in enumerate(self.threads)}
+        if self.last is not None and any(x is self.last for x in runnable):
+            start = pos[id(self.last)]
+        else:
+            start = self.rr
+        cands = sorted(runnable, key=lambda x: (pos[id(x)] - start) % n)
+        k = 0
+        while self.delay_used < self.delays and k < len(cands) - 1:
+            if self.i >= len(self.choices):
+                self.pruned_by = "K"
+                raise Prune()
+            with traced():
+                b = self.choices[self.i]
+                self.i += 1
+                if b:
+                    break
+            k += 1
+            self.delay_used += 1
+        t = cands[k]
+        self.rr = (pos[id(t)] + 1) % n
+        return t
 
     def prelude(self, names, max_steps=400):
         """deterministic set-up phase: step the named threads (first runnable first) until none of them can run;
@@ -235,20 +268,37 @@ class Sched:
             runnable = [t for t in live if t[2] is None or (not isinstance(t[2], Timed) and t[2]()) or
                         (isinstance(t[2], Timed) and t[2].ready())]
             if not runnable:
-                # quiescence: time passes, timed waits expire (timeouts have the lowest priority)
-                runnable = [t for t in live if isinstance(t[2], Timed)]
+                # quiescence: time passes, timed waits expire (timeouts have the lowest priority); if there is no timed wait
+                # either, a polling thread that stepped aside (AfterOthers) goes on polling
+                runnable = [t for t in live if isinstance(t[2], Timed)] or [t for t in live if isinstance(t[2], AfterOthers)]
                 self.last = None           # every thread is blocked: whoever's timeout fires first, nobody is preempted
                 self._idle = getattr(self, "_idle", 0) + 1
                 if not runnable or self._idle > 20:
                     raise Deadlock([t[0] for t in live if not t[3]])
+                if self.lazy:
+                    # an observer thread runs only after the system has done nothing but time out for a while
+                    others = [t for t in runnable if t[0] not in self.lazy]
+                    if others and self._idle <= self.settle:
+                        runnable = others
+                    elif self._idle > self.settle:
+                        lz = [t for t in runnable if t[0] in self.lazy]
+                        runnable = lz or runnable
             eager = [x for x in runnable if x[0] in self.eager]
             if eager:
                 t = eager[0]
+            elif self.delays is not None:
+                t = self.pick_delay_bounded(runnable)
             elif (self.max_preempt is not None and self.preempts >= self.max_preempt and self.last is not None
                   and any(x is self.last for x in runnable)):
                 t = self.last              # preemption budget used up: the running thread keeps the processor (no choice consumed)
+            elif (self.max_preempt is not None and self.preempts >= self.max_preempt and self.stepped_aside is not None
+                  and any(x is not self.stepped_aside for x in runnable)):
+                # preemption budget used up and the last thread gave way inside a polling loop: the next thread in spawn order
+                # takes over (no choice consumed - the spinning thread's turn comes again after the others)
+                t = [x for x in runnable if x is not self.stepped_aside][0]
             else:
                 t = runnable[self.pick(runnable)]
+            self.stepped_aside = None
             if self.last is not None and self.last is not t and any(x is self.last for x in runnable):
                 self.preempts += 1
                 if self.max_preempt is not None and self.preempts > self.max_preempt:
@@ -264,20 +314,31 @@ class Sched:
                 if req is OTHER:
                     # voluntary yield of a busy-wait iteration: not runnable again before another thread has taken a step
                     # (fair scheduling of an effect-free spin); switching away from it is not a preemption
-                    n = steps
-                    t[2] = (lambda n=n: self._steps > n)
+                    t[2] = AfterOthers(self, steps)
                     self.last = None
+                    self.stepped_aside = t
                 elif req is not None:
                     t[2] = req
             except StopIteration as s:
                 results[t[0]] = s.value
                 live.remove(t)
+                self.finished.add(t[0])
                 self.last = None
             for rec in _PENDING:
                 if not rec[1]:
                     raise HarnessError(f"stand-in operation {rec[0]} was created by an untransformed caller and never driven")
             del _PENDING[:]
         return results
+
+
+class AfterOthers:
+    """wait condition of a thread that yielded OTHER: true once any other thread has taken a step"""
+
+    def __init__(self, sched, n):
+        self.sched, self.n = sched, n
+
+    def __call__(self):
+        return self.sched._steps > self.n
 
 
 OTHER = object()      # yielded by a stand-in whose real counterpart returns at once inside a polling loop
